@@ -1,9 +1,11 @@
 ID = 'C02'
 LEVEL = 'proof'
-CONTRACT_MODULES = ['contracts.calc']
+CONTRACT_MODULES = ['contracts.calc', 'contracts.regions', 'contracts.catalogs']
 CONE = [
     'csep.utils.calc.bin1d_vec',
     'csep.core.forecasts.MarkedGriddedDataSet.get_magnitude_index',
+    'csep.utils.calc.discretize',
+    'csep.core.catalogs.AbstractBaseCatalog.get_mag_idx',
 ]
 BOUNDED = True
 FLOAT_MODEL = ('R: float64/float32 values are reals, numpy.finfo(dtype).eps is the exact rational 2^-52 / 2^-23; the tolerance terms '
